@@ -13,7 +13,7 @@
 From Coq Require Import ZArith List Lia.
 Import ListNotations.
 From Mds Require Import Stree.StreeModel Stree.StreeSpec Stree.StreeProofsBase Stree.StreeProofsSet
-  Stree.StreeProofsHist.
+  Stree.StreeProofsHist Stree.StreeProofsAudit.
 Local Open Scope Z_scope.
 
 (* For every comparison function, every depth-limit function, every balance factor (it is an
@@ -69,12 +69,49 @@ Theorem C01_new_choice : forall (T : Type) (cmp : T -> T -> Z), total_preorder c
 Proof. exact s_new_choice. Qed.
 Print Assumptions C01_new_choice.
 
+(* The hypothesis of C01_no_failure excludes no New call: every key list has an acceptable
+   oracle (for instance the choice the reference makes itself: the first given key of each class). *)
+Theorem C01_new_oracle_exists : forall (T : Type) (cmp : T -> T -> Z), total_preorder cmp ->
+  forall keys : list T, exists picks kept, s_new cmp keys picks = Some kept.
+Proof. exact s_new_exists. Qed.
+Print Assumptions C01_new_oracle_exists.
+
 (* The in-place rebuild (treeToVine, then vineToTree with the exact node count) never runs out of
    chain, never runs out of fuel, and keeps the in-order sequence element for element. *)
 Theorem C01_rewrite_keeps_order : forall (T : Type) (t : tree T) (sz : Z),
   sz = size t -> exists t', rewrite t sz = Ok t' /\ inorder t' = inorder t.
 Proof. exact rewrite_ok. Qed.
 Print Assumptions C01_rewrite_keeps_order.
+
+(* A count that is too SMALL is harmless for the contents (the shape suffers: that is C02): the
+   rebuild still succeeds and keeps the in-order sequence for every count up to the node count,
+   negative ones included.  (This is why a delete-side rebuild with size-1 has no failing input
+   for C01; a count that is too large can dereference nil, see corpus/C01.) *)
+Theorem C01_rewrite_undercount_keeps_order : forall (T : Type) (t : tree T) (sz : Z),
+  sz <= size t -> exists t', rewrite t sz = Ok t' /\ inorder t' = inorder t.
+Proof. exact rewrite_ok_le. Qed.
+Print Assumptions C01_rewrite_undercount_keeps_order.
+
+(* Machine integers: for trees of fewer than 2^52 nodes and beta in 0..1000, every integer
+   expression of stree.go/node.go that the model takes from Gen (sizes+1, limit-1, height+1,
+   sibling+1+size, max*beta+1000 and its quotient, 2*step+1, count-step, the extract midpoint,
+   the inorderAfter index) stays strictly inside int64, so the unbounded-Z reading is exact. *)
+Theorem C01_int64_ranges : forall sz mx b lim ht sib step cnt n : Z,
+  small sz -> small mx -> 0 <= b <= 1000 -> small sib -> small ht -> small cnt -> small n ->
+  - 2 ^ 52 <= lim < 2 ^ 53 -> 0 <= step <= 2 * cnt + 1 ->
+  i64 (Gen.StreeConst.add_limit_arg sz) /\ i64 (Gen.StreeConst.replace_limit_arg sz) /\ i64 (Gen.StreeConst.inc_size sz)
+  /\ i64 (Gen.StreeConst.ins_left_limit lim) /\ i64 (Gen.StreeConst.ins_right_limit lim)
+  /\ i64 (Gen.StreeConst.ins_left_height ht) /\ i64 (Gen.StreeConst.ins_right_height ht)
+  /\ i64 (Gen.StreeConst.ins_root_size sib sz)
+  /\ i64 (Gen.StreeConst.rem_size sz)
+  /\ i64 (mx * b) /\ i64 (mx * b + Gen.StreeConst.maxBalance) /\ i64 (Gen.StreeConst.rem_threshold mx b)
+  /\ i64 (Gen.StreeNode.node_size sib sz)
+  /\ i64 (Gen.StreeNode.v2t_step_next step) /\ i64 (Gen.StreeNode.v2t_step_final step)
+  /\ i64 (Gen.StreeNode.v2t_first_count cnt step) /\ i64 (Gen.StreeNode.v2t_left_next step)
+  /\ i64 (Gen.StreeNode.ext_mid n) /\ i64 (Gen.StreeNode.ext_right_lo (Gen.StreeNode.ext_mid n))
+  /\ i64 (Gen.StreeNode.after_start n) /\ i64 (Gen.StreeNode.after_next n).
+Proof. exact int64_ranges. Qed.
+Print Assumptions C01_int64_ranges.
 
 (* The count Remove hands to the delete-side rebuild is exactly the number of nodes left. *)
 Theorem C01_remove_rebuild_count : forall (T : Type) (cmp : T -> T -> Z) (t : Tree T) l k del,
@@ -134,6 +171,24 @@ Proof. vm_compute. repeat split; try lia; discriminate. Qed.
 
 Example C01_new_choice_ex : s_new cmp_key [(5,1); (1,2); (5,3); (3,4)] [1; 3; 2]%nat = Some [(1,2); (3,4); (5,3)].
 Proof. vm_compute. reflexivity. Qed.
+
+Example C01_new_oracle_exists_ex :
+  s_new cmp_key [(5,1); (1,2); (5,3); (3,4)] [1; 3; 0]%nat = Some [(1,2); (3,4); (5,1)]
+  /\ s_new cmp_key [(5,1); (1,2); (5,3); (3,4)] [1; 3; 0; 2]%nat = None.    (* two of one class: rejected *)
+Proof. vm_compute. split; reflexivity. Qed.
+
+Example C01_rewrite_undercount_keeps_order_ex :
+  (* the right spine 1..5 rebuilt with count 4 and with count -1: all five keys stay, in order *)
+  let v := Node Leaf 1 (Node Leaf 2 (Node Leaf 3 (Node Leaf 4 (Node Leaf 5 Leaf)))) in
+  4 <= size v /\
+  rewrite v 4 = Ok (Node (Node (Node Leaf 1 Leaf) 2 Leaf) 3 (Node Leaf 4 (Node Leaf 5 Leaf)))
+  /\ rewrite v (-1) = Ok v.
+Proof. vm_compute. repeat split; discriminate. Qed.
+
+Example C01_int64_ranges_ex :
+  small 1000000 /\ small (2 ^ 52 - 1) /\ 0 <= 1000 <= 1000 /\ - 2 ^ 52 <= 2 ^ 52 < 2 ^ 53 /\ 0 <= 15 <= 2 * 7 + 1
+  /\ Gen.StreeConst.rem_threshold (2 ^ 52 - 1) 1000 = 2251799813685248.
+Proof. vm_compute. repeat split; discriminate. Qed.
 
 Example C01_rewrite_keeps_order_ex :
   rewrite (Node (Node (Node (Node Leaf 1 Leaf) 2 Leaf) 3 Leaf) 4 (Node Leaf 5 (Node Leaf 6 (Node Leaf 7 Leaf)))) 7
